@@ -242,6 +242,25 @@ static void pattern_case(int r, int c, long long p) {
   if (ctx().samples < 3 && r == 4 && c == 4 && comps == 2 && p % 4099 == 7) X("pattern " + patstr(r, c, p) + " components 2 perm " + [&] { std::vector<int> pp; for (int k = 1; k <= c; k++) pp.push_back(ord.perm(k)); return join(pp); }());
 }
 
+// one ordering object given a second graph by reset(): every ordered pair of 2-row patterns with 1..3 columns
+// (the second graph smaller, equal or bigger): the object must answer as a fresh one built on the second graph
+static std::vector<std::pair<int, long long>>& reuse_pats() { static std::vector<std::pair<int, long long>> P; if (P.empty()) for (int c = 1; c <= 3; c++) for (long long p = 0; p < (1LL << (2 * c)); p++) P.push_back({c, p}); return P; }
+static std::string reuse_fmt(long long idx) { auto& P = reuse_pats(); long long n = (long long)P.size(); return "ordering object: first " + patstr(2, P[idx / n].first, P[idx / n].second) + " then reset to " + patstr(2, P[idx % n].first, P[idx % n].second); }
+static void reuse_case(long long idx) {
+  auto& P = reuse_pats(); long long n = (long long)P.size();
+  int c1 = P[idx / n].first, c2 = P[idx % n].first; long long p1 = P[idx / n].second, p2 = P[idx % n].second;
+  C("states"); C("evaluations"); C("transitions"); g_cls = c2 < c1 ? "second-smaller" : (c2 == c1 ? "second-equal" : "second-bigger");
+  std::unique_ptr<SM> s1(build(2, c1, p1, false, pcv)), s2(build(2, c2, p2, false, pcv));
+  SG G1(s1.get()), G2(s2.get());
+  RCM ord(&G1); ord.reset(&G2);
+  RCM ref(&G2);
+  O("ordering-reuse:" + g_cls);
+  bool ok = ord.nodes() == c2 && ord.perm.dim() >= c2 + 1 && ord.invp.dim() >= c2 + 1;
+  if (ok) for (int k = 1; k <= c2; k++) if (ord.perm(k) != ref.perm(k) || ord.invp(k) != ref.invp(k) || ord.perm(k) < 1 || ord.perm(k) > c2 || ord.invp(ord.perm(k)) != k) { ok = false; break; }
+  if (!ok) { std::vector<int> pp, ip, rp, ri; for (int k = 1; k <= c2 && k < ord.perm.dim(); k++) { pp.push_back(ord.perm(k)); ip.push_back(ord.invp(k)); } for (int k = 1; k <= c2; k++) { rp.push_back(ref.perm(k)); ri.push_back(ref.invp(k)); }
+    bad("ordering", "ReverseCuthillMcKee::reset", g_cls, "perm {" + join(pp) + "} invp {" + join(ip) + "}; a fresh object gives perm {" + join(rp) + "} invp {" + join(ri) + "}"); }
+}
+
 // degenerate shapes: no rows and/or no columns
 static void dim0_case(long long idx) {
   int r = (int)(idx / 3) % 3, c = (int)(idx % 3), step = (int)(idx / 9);
@@ -498,13 +517,17 @@ static void enva_case(long long idx) {
 // ------------------------------------------------------------------ homogenization
 static std::vector<Layout>& hom_layouts(int m) { static std::map<int, std::vector<Layout>> L; if (!L.count(m)) { std::vector<Layout> all; gen_layouts(m, false, all); for (auto& l : all) { int n = 0; for (int d : l.dim) n += d; if (n == m) L[m].push_back(l); } } return L[m]; }
 static const int HOMC = 2;
-static void hom_case(int m, long long idx) {
+static long long pow3(int k) { long long r = 1; while (k-- > 0) r *= 3; return r; }
+// tern: every cell of the matrix is absent / stored non-zero / stored with the value exactly 0 (an element that is
+// structurally present and vanishes: the column must still be registered for the blocks that follow)
+static void hom_case(int m, long long idx, bool tern = false) {
   std::vector<Layout>& LL = hom_layouts(m);
-  long long np = 1LL << (m * HOMC); const Layout& l = LL[idx / np]; long long p = idx % np;
+  long long np = tern ? pow3(m * HOMC) : 1LL << (m * HOMC); const Layout& l = LL[idx / np]; long long p = idx % np, z = 0;
+  if (tern) { long long t = p; p = 0; for (int k = 0; k < m * HOMC; k++, t /= 3) { int d = (int)(t % 3); if (d) p |= 1LL << k; if (d == 2) z |= 1LL << k; } if (!z) return; }
   C("states"); C("evaluations");
-  bool corr = false; for (int w : l.width) if (w) corr = true; g_cls = corr ? "banded" : "diagonal";
+  bool corr = false; for (int w : l.width) if (w) corr = true; g_cls = corr ? "banded" : "diagonal"; if (tern) g_cls += "|explicit-zeros";
   std::vector<LMat> Bk = dense_blocks(l);
-  auto val = [](int i, int j) { return ((i & 1) ? -1.0 : 1.0) * (1 + (2 * i + j) % 3); };
+  auto val = [z](int i, int j) { return ((z >> (i * HOMC + j)) & 1) ? 0.0 : ((i & 1) ? -1.0 : 1.0) * (1 + (2 * i + j) % 3); };
   GNU_gama::AdjInputData data;
   data.set_mat(build(m, HOMC, p, false, val));
   data.set_cov(make_bd(l, Bk));
@@ -542,6 +565,7 @@ int main(int argc, char** argv) {
     run_unit(u, u.total > 100000 ? 512 : (u.total > 4096 ? 128 : (u.total > 256 ? 16 : 1)));
   }
   { Unit u; u.name = "sp.dim0"; u.total = 36; u.maxcrash = 64; u.fmt = dim0_fmt; u.f = dim0_case; run_unit(u, 2); }
+  { Unit u; u.name = "sp.reuse"; long long n = (long long)reuse_pats().size(); u.total = n * n; u.fmt = reuse_fmt; u.f = reuse_case; run_unit(u, 16); }
   { Unit u; u.name = "sp.svector"; u.total = 45; u.fmt = [](long long n) { return std::to_string(n) + " insertions"; }; u.f = svector_case; run_unit(u); }
   for (int nm = 5; nm <= 6; nm++) {
     if (nm == 6 && !th && g().want_unit.empty()) continue;     // the larger family runs in the thorough tier only (replayable in both)
@@ -553,6 +577,12 @@ int main(int argc, char** argv) {
     Unit u; u.name = "hom." + std::to_string(m); u.total = (long long)hom_layouts(m).size() << (m * HOMC);
     u.fmt = [=](long long i) { long long np = 1LL << (m * HOMC); return laystr(hom_layouts(m)[i / np]) + " pattern " + patstr(m, HOMC, i % np); };
     u.f = [=](long long i) { hom_case(m, i); }; run_unit(u, u.total > 20000 ? 64 : (u.total > 1000 ? 8 : 1));
+  }
+  for (int m = 2; m <= (th ? 5 : 4); m++) {
+    Unit u; u.name = "homz." + std::to_string(m); u.total = (long long)hom_layouts(m).size() * pow3(m * HOMC);
+    u.fmt = [=](long long i) { long long np = pow3(m * HOMC); long long t = i % np, p = 0, z = 0; for (int k = 0; k < m * HOMC; k++, t /= 3) { int d = (int)(t % 3); if (d) p |= 1LL << k; if (d == 2) z |= 1LL << k; }
+                               return laystr(hom_layouts(m)[i / np]) + " pattern " + patstr(m, HOMC, p) + " stored zeros " + patstr(m, HOMC, z); };
+    u.f = [=](long long i) { hom_case(m, i, true); }; run_unit(u, u.total > 20000 ? 64 : (u.total > 1000 ? 8 : 1));
   }
   return done();
 }
